@@ -227,12 +227,14 @@ def solve_exact_cover(
     Returns:
         Result with solution (tuple of row indices) or list of solutions if find_all
     """
+    # No rows or no columns: the empty selection is the one and only exact cover.
+    empty = Result([()], 1, 0, 0) if find_all else Result((), 0, 0, 0)
     if not matrix:
-        return Result((), 0, 0, 0)
+        return empty
 
     root, _, _ = _build_links(matrix, columns, secondary)
     if root is None:
-        return Result((), 0, 0, 0)
+        return empty
 
     solutions = []
     current = []
